@@ -1092,7 +1092,17 @@ func TestVerif_C09Race(t *testing.T) {
 			}(i)
 		}
 		close(start)
-		wg.Wait()
+		finished := make(chan struct{})
+		go func() { wg.Wait(); close(finished) }()
+		select {
+		case <-finished:
+		case <-time.After(90 * time.Second):
+			// e.g. a second message on SignerIsReady blocks its sender for ever, with the mutex held
+			res.hit(verifHit{Key: "C09:race:deadlock", Oracle: "concurrent injections and requests all complete", What: "injections / requests still blocked after 90 s", Case: round})
+			res.Extra["rounds"] = round
+			res.write(t, "TestVerif_C09Race")
+			return
+		}
 		ready := 0
 		for {
 			select {
